@@ -282,6 +282,8 @@ func Cases(r *hx.Rand, tier string) []Case {
 	}
 	must = append(must, Directions()...)
 	must = append(must, UntypedArgs()...)
+	// the fitting variadic twin of every call shape and every function type in it (vtwin.go)
+	must = append(must, VariadicTwins()...)
 	// depth 2 of the main forms over the supported leaf int (the expected-ok side): always
 	for _, f := range forms {
 		if !mainForm[f.name] {
